@@ -174,6 +174,37 @@ def eval_case(case):
                              % (kind, n, ri, size, got, b), {"got": got}))
             outcome = got
             nontrivial = size > 1 and n > 0
+        elif kind == "seq":
+            # HISTORY on long-lived configuration objects (one per rank): a sequence of
+            # distributed loops; every loop must be an exact partition of its own range
+            cfgs = [make_config(size, rank) for rank in range(size)]
+            from quantarhei.core.managers import Manager
+            got_all = []
+            for idx, (api, a, b) in enumerate(case["loops"]):
+                got = []
+                for rank in range(size):
+                    Manager().parallel_conf = cfgs[rank]
+                    P.start_parallel_region()
+                    if api == "range":
+                        part = list(P.block_distributed_range(a, b))
+                        whole = list(range(a, b))
+                    elif api == "list":
+                        whole = [10 * k + 3 for k in range(b - a)]
+                        part = [int(x) for x in P.block_distributed_list(list(whole))]
+                    else:
+                        whole = [10 * k + 3 for k in range(b - a)]
+                        part = [int(x) for x in P.block_distributed_array(numpy.array(whole))]
+                    P.close_parallel_region()
+                    got.append(part)
+                bad = partition.check_lists(got, whole)
+                for bb in bad:
+                    viol.append(("sequence-of-loops/%s/%s" % (api, bb),
+                                 "loop #%d %s(%d,%d) after %r on the same per-rank configuration "
+                                 "objects, size=%d -> %s: %s"
+                                 % (idx, api, a, b, case["loops"][:idx], size, got, bb), None))
+                got_all.append(got)
+            outcome = got_all
+            nontrivial = size > 1 and len(case["loops"]) > 1
         elif kind == "reduce":
             return eval_reduce(case)
         else:
@@ -219,7 +250,13 @@ def eval_reduce(case):
         for _round in range(8):
             partials, finals = [], []
             for rank in range(size):
-                make_config(size, rank, reduced=[r.copy() for r in reduced])
+                dc = make_config(size, rank, reduced=[r.copy() for r in reduced])
+                if case.get("nested"):
+                    # the caller has already opened a parallel region (as Manager.__init__ does
+                    # under real MPI, or a script wrapping the calculation): the inner loops must
+                    # not be shared a second time and nothing must be reduced twice
+                    from quantarhei.core import parallel as P
+                    P.start_parallel_region()
                 ta, ham, sbi = _build(case)
                 try:
                     finals.append(numpy.array(_target(case, ham, sbi), copy=True))
@@ -239,15 +276,16 @@ def eval_reduce(case):
             for rank, r in enumerate(results):
                 ok, err = approx(r, serial, 1e-10)
                 if not ok:
-                    viol.append(("reduce/%s/differs-from-serial" % case["target"],
+                    viol.append(("reduce/%s/%sdiffers-from-serial" % (case["target"],
+                                 "nested-region/" if case.get("nested") else ""),
                                  "size=%d rank=%d: sum-reduced %s differs from serial by %g"
                                  % (size, rank, case["target"], err), {"err": err}))
                     break
         elif not viol:
             viol.append(("reduce/no-convergence", "lock-step simulation did not finish", None))
-        if ncoll == 0 and size > 1:
+        if ncoll == 0 and size > 1 and not case.get("nested"):
             raise isolation.HarnessError("no collective call intercepted: seam lost")
-        return {"nontrivial": size > 1, "outcome": [case["target"], size, ncoll,
+        return {"nontrivial": size > 1, "outcome": [case["target"], size, ncoll, bool(case.get("nested")),
                                                     float(numpy.round(numpy.abs(serial).sum(), 9))],
                 "violations": viol}
     finally:
@@ -274,6 +312,23 @@ def cases(tier):
             for size in range(1, smax + 1):
                 for n in range(0, 2 * size + 4):
                     cs.append({"kind": kind, "size": size, "n": n, "return_index": ri})
+    ranges = [(0, 5), (5, 10), (0, 6), (6, 12), (3, 3), (2, 4), (-2, 3)]
+    import itertools
+    for size in range(2, (4 if tier == "quick" else 6) + 1):
+        for l1, l2 in itertools.product(ranges, repeat=2):
+            for a1, a2 in (("range", "range"), ("list", "range"), ("range", "array")):
+                cs.append({"kind": "seq", "size": size,
+                           "loops": [[a1, l1[0], l1[1]], [a2, l2[0], l2[1]]]})
+        if tier == "thorough":
+            for l1, l2, l3 in itertools.product(ranges[:5], repeat=3):
+                cs.append({"kind": "seq", "size": size,
+                           "loops": [["range", l1[0], l1[1]], ["list", l2[0], l2[1]],
+                                     ["range", l3[0], l3[1]]]})
+    for target in ("tensor", "tensor_ops", "rates"):
+        for nsites in (2, 3):
+            for size in range(2, 4):
+                cs.append({"kind": "reduce", "target": target, "nsites": nsites, "size": size,
+                           "nt": 100, "nested": True})
     for target in ("tensor", "tensor_ops", "rates"):
         for nsites in ((2, 3) if tier == "quick" else (2, 3, 4, 5)):
             for size in range(1, (4 if tier == "quick" else 7) + 1):
